@@ -2,11 +2,18 @@
    full-flush requests, sticky errors, non-Finish after Finish, and - for every state reachable
    from a constructor, every input, output length and flush value - counts within the offered
    buffers with the window bookkeeping preserved (on top of the core frame theorem).  Progress
-   and the stream-end clauses are decided per explored run. *)
-From Coq Require Import NArith ZArith List.
+   and the stream-end clauses are decided per explored run - and PROVED for streams of stored blocks
+   (raw, zlib with the right trailer, zlib with the trailer ignored) under every sequence of calls that do
+   not ask for Finish or a full flush (C13_inflate_on_stored_streams_partial): every call returns, the codes
+   are MZ_OK / MZ_STREAM_END / MZ_BUF_ERROR (the last only for a call without input while nothing is
+   pending), the bytes handed out are always a prefix of the plaintext, and MZ_STREAM_END is reported only
+   when all of it has been handed out.  Under the wrapper the decoder runs on the 32 KiB ring at a moving
+   offset; the proof composes the decoder invariant with the ring bookkeeping (dict_ofs, dict_avail). *)
+From Coq Require Import NArith ZArith List Bool.
 From MZ.lib Require Import Mach.
 From MZ.model Require Import InflateCore InflateStream.
-From MZ.proofs Require Import Protocol InflateStreamCounts.
+From MZ.spec Require Import Adler Zlib.
+From MZ.proofs Require Import Protocol InflateStreamCounts StoredSpec InflateStoredStream.
 Import ListNotations.
 Local Open Scope N_scope.
 
@@ -49,3 +56,31 @@ Proof.
   intros fmt s. split; [apply WF_new|]. intros H.
   split; [apply WF_min_reset|split; [apply WF_zero_reset|apply WF_full_reset]]; exact H.
 Qed.
+
+Theorem C13_inflate_on_stored_streams_partial :
+  forall fmt cmf flg chunks last extra (calls : list (list N * N * N)) later,
+  cmf < 256 -> flg < 256 -> valid_header (Z.of_N cmf) (Z.of_N flg) = true ->
+  chunks_ok chunks -> bytes_ok last -> N.of_nat (length last) <= 65535 ->
+  let data := concat chunks ++ last in
+  let zl := zl_of fmt in
+  let stream := (if zl then [cmf; flg] else []) ++ stored_stream chunks last ++ (if zl then be32 (adler32 1 data) else []) in
+  let offered := concat (map (fun it : list N * N * N => fst (fst it)) calls) in
+  Forall (fun it : list N * N * N => snd it <> FL_FINISH /\ snd it <> FL_FULL) calls ->
+  offered ++ later = stream ++ extra ->
+  N.of_nat (length offered) < 2 ^ 57 -> N.of_nat (length data) < 2 ^ 40 ->
+  exists codes acc s',
+    sfeed (is_new fmt) [] calls [] [] = Ret (codes, acc, s') /\
+    Forall code_ok codes /\ acc = firstn (length acc) data /\ (In MZ_STREAM_END codes -> acc = data).
+Proof. exact inflate_on_stored_streams. Qed.
+
+(* non-vacuity: a zlib stream of two stored blocks through inflate() with 3 bytes of input and 2 bytes of
+   output space per call, then calls without input: the codes end with MZ_STREAM_END and everything is out *)
+Example C13_inflate_small_buffers :
+  let data := [97; 98; 99; 100; 101] in
+  let stream := 120 :: 1 :: stored_stream [[97; 98; 99]] [100; 101] ++ be32 (adler32 1 data) in
+  let calls := map (fun i => (firstn 3 (skipn (3 * i) stream), 2, 0)) (seq 0 7) ++ [([], 2, 0); ([], 2, 2)] in
+  match sfeed (is_new FZlib) [] calls [] [] with
+  | Ret (codes, acc, _) => acc = data /\ last codes 0%Z = MZ_STREAM_END /\ hd 0%Z codes = MZ_OK
+  | _ => False
+  end.
+Proof. vm_compute. repeat split; reflexivity. Qed.
